@@ -2,6 +2,19 @@
 import json, pathlib
 V = pathlib.Path(__file__).resolve().parents[1]
 CHECKS = {
+ 'C01': dict(
+  text="Proof (Lean 4) over exact rationals, for every block shape, pixel values, masks, odd kernel (h != w included) and pixel: "
+       "the window is kernel-shaped height x width centred on the pixel; the six zero-filled box sums are the sums over the "
+       "window's jointly valid pixels; gain = ratio of sums; gain-offset = closed-form OLS, satisfies both normal equations and "
+       "minimises RSS over all lines; gain-blk-offset = block-normalised ratio of sums; R2 expansions = 1 - RSS/TSS; the fitted "
+       "line maps mean source to mean reference for all models, also at in-painted pixels; no parameters off the joint mask; "
+       "kernel-shape validation spec (14 theorems). Tied to the code by running the real KernelModel.fit on ~200 (quick) / 4000 "
+       "(thorough) generated blocks: masks exact, gains bit-identical to float32(model rational), offsets/R2 within a float32 "
+       "error budget, plus a brute-force definition oracle over each window.",
+  note="OpenCV box filters are modelled as zero-border window sums (validated by the correspondence run on integer data where "
+       "float32 sums are exact); rasterio.fill.fillnodata is a parameter of the model (its output is fed to the model); "
+       "numpy std/percentile enter through the block normalisation pair (n0, n1) taken from the code.",
+  tech="Lean 4 proof (field_simp/ring/linarith over Q, list induction) + bit-exact differential correspondence run", ref='7 C01'),
  'C06': dict(
   text="Proof (Lean 4): for all origins, pixel sizes, image sizes, block lengths s>0 and overlaps v>=0 the processing-grid "
        "output windows partition the processing window, the rounded other-grid output windows partition [round A, round B) "
